@@ -5,12 +5,12 @@ rows = []
 for f in sorted(glob.glob('/verif/seeded/*/meta.json')):
     m = json.load(open(f))
     res = m.get('checks_run_against_it', {}).get('result', {})
-    caught = ', '.join('%s:%s' % (c, 'caught' if r.get('exit') == 'rc=1' else ('ERROR' if r.get('exit') == 'rc=2' else 'missed')) for c, r in res.items())
+    caught = ', '.join('%s:%s%s' % (c.split(':')[0], 'caught' if r.get('exit') == 'rc=1' else ('ERROR' if r.get('exit') == 'rc=2' else 'missed'), ' (thorough tier)' if r.get('tier') == 'thorough' else '') for c, r in res.items())
     keys = '; '.join(k for r in res.values() for k in r.get('violation_keys', [])[:2])
     rows.append((m['id'], m.get('origin', ''), m.get('breaks_property', ''), (m.get('summary') or '')[:110].replace('|', '/'), (m.get('needs_to_manifest') or '')[:140].replace('|', '/').replace('\n', ' '), caught, keys[:160]))
 with open('/verif/seeded/INDEX.md', 'w') as o:
     o.write('# Seeded changes\n\nEach directory holds `patch.diff` (applies to /repo HEAD with `git -C /repo apply`), the demonstration (`demo/`) and `meta.json`.\n`caught` = the check exits 1 with a VIOLATION line on the patched tree; every check is silent on the unchanged tree.\n\n')
-    o.write('| id | origin | property | change | needs to manifest | checks (quick tier) | first violation keys |\n|---|---|---|---|---|---|---|\n')
+    o.write('| id | origin | property | change | needs to manifest | checks (quick tier unless noted) | first violation keys |\n|---|---|---|---|---|---|---|\n')
     for r in rows:
         o.write('| ' + ' | '.join(r) + ' |\n')
 print(len(rows), 'seeds indexed')
